@@ -5,14 +5,13 @@ twice, then feeds the models back in every permutation; prints a JSON summary wi
 Options of a case (`opts`, all optional; the defaults are the analysis of the first version of this check):
   fmt            "tsv" | "parquet"     format of the PSM tables
   fasta_files    1 | 2                 the FASTA text is handed to read_fasta as one file or as a tuple of two
-  model          "percolator" (PercolatorModel with the case's seed) | "default" (brew(model=None))
+  model          "percolator" (PercolatorModel with the case's seed) | "default" (brew(model=None): brew builds the model and seeds it from its rng)
   rng_kind       "int" | "generator"   the fixed seed is passed as an int or as a freshly seeded numpy Generator
   subset_max_train, ensemble           passed to brew
   sleep          bool                  worker functions of mokapot get short random delays (thread completion order
                                        differs from run to run and between interpreters) when max_workers > 1
   reuse          bool                  run 2 re-uses the (untrained) model OBJECT of run 1 and writes into the
                                        result directory of run 1 (which still holds the files of run 1)
-  proteins       bool (default true)   protein level on; off for Parquet input, where the protein level of /repo always fails
   persist        bool                  one more feed-back run with the models saved to files and loaded again
                                        (what the command line does with --load_models), in reversed order
 """
@@ -81,8 +80,11 @@ def main(path):
         mconf.peps_from_scores = lambda scores, targets, *a, **k: np.zeros(len(scores))
 
         def errtext(e):
-            # the scratch directory has another name in every run: not part of the observation
-            return type(e).__name__ + ": " + str(e).replace(str(d), "<tmp>")[:160]
+            # the scratch directory has another name in every run, its sub-directories carry the name of the run
+            # (run1 / run2): not part of the observation - a failure that is the same in every run must compare equal
+            import re
+            text = re.sub(r"\b(out|tied|coarse)_(run1|run2|perm)\b", r"\1_<run>", str(e).replace(str(d), "<tmp>"))
+            return type(e).__name__ + ": " + text[:160]
 
         def fixed_seed():
             """the user's fixed seed, in the form the case chose; a Generator is made afresh for every use,
@@ -164,7 +166,7 @@ def main(path):
                     try:
                         mokapot.assign_confidence(dss, max_workers=case["workers"], scores=list(scores), descs=list(descs),
                                                   eval_fdr=0.5, dest_dir=o, prefixes=prefixes, decoys=True,
-                                                  proteins=P if opts.get("proteins", True) else None, rng=fixed_seed())
+                                                  proteins=P, rng=fixed_seed())
                         res["files"] = {fn: hashlib.sha256((o / fn).read_bytes()).hexdigest() for fn in sorted(os.listdir(o))}
                     except Exception as e:
                         res["conf_error"] = errtext(e)
@@ -177,7 +179,7 @@ def main(path):
                     try:
                         mokapot.assign_confidence(dss, max_workers=case["workers"], scores=[np.round(s, 1) for s in scores],
                                                   descs=list(descs), eval_fdr=0.5, dest_dir=o2, prefixes=prefixes,
-                                                  decoys=True, proteins=P if opts.get("proteins", True) else None,
+                                                  decoys=True, proteins=P,
                                                   rng=fixed_seed())
                         res["files_tied"] = {fn: hashlib.sha256((o2 / fn).read_bytes()).hexdigest() for fn in sorted(os.listdir(o2))}
                     except Exception as e:
@@ -191,7 +193,7 @@ def main(path):
                     try:
                         mokapot.assign_confidence(dss, max_workers=case["workers"], scores=[np.round(s, 0) for s in scores],
                                                   descs=list(descs), eval_fdr=0.5, dest_dir=o3, prefixes=prefixes,
-                                                  decoys=True, proteins=P if opts.get("proteins", True) else None,
+                                                  decoys=True, proteins=P,
                                                   rng=fixed_seed())
                         res["files_coarse"] = {fn: hashlib.sha256((o3 / fn).read_bytes()).hexdigest() for fn in sorted(os.listdir(o3))}
                     except Exception as e:
